@@ -8,6 +8,38 @@ def the_oracle(case, block, mu_cache): return oracle_c01(case, block)
 ASSUME = ["the emitted cycle of a phase is an open choice (ties): the theorems quantify over every choice satisfying the phase contract PhaseOK; that the C++ searches meet PhaseOK is validated per run (per-phase optimum from the model's signed-graph distances; definitional enumeration of all 2^m edge subsets on graphs with m<=11), not proved",
           "Model/DePina.lean support bookkeeping literal for signed / signed_tbb / trees / mpi", "C16 supplies ExactDomain for the ForestIndex numbering"]
 
+def focused_search(res, pid, binary, cases, meta, diffs, oracle, r):
+    """the model and the implementation disagree on some runs although the property held there: look for an
+    input on which the property itself fails, near the disagreeing inputs (same graph under many edge insertion
+    orders / vertex relabellings — the signed searches depend on the pointer order of the edges — and
+    reweighted copies)"""
+    ids = []
+    for d in diffs:
+        if d[1] in cases and d[1] not in ids: ids.append(d[1])
+    tried = 0
+    for cid in ids[:25]:
+        n, WE, scale, tag = cases[cid]
+        v, wt = meta[cid]
+        batch, bmeta = {}, {}
+        for j in range(120):
+            perm = list(range(n)); r.shuffle(perm)
+            E2 = [(perm[a], perm[b], w) if r.random() < .5 else (perm[b], perm[a], w) for (a, b, w) in WE]
+            r.shuffle(E2)
+            if j % 3 == 2: E2 = [(a, b, max(1, w + r.randint(-2, 2))) for (a, b, w) in E2]
+            batch["f%d" % j] = (n, E2, scale, "focused"); bmeta["f%d" % j] = (v, wt)
+        rc, out, err = run_exact(binary, batch, bmeta)
+        blocks = parse_blocks(out)
+        for j, c in batch.items():
+            tried += 1
+            why = oracle(c, blocks.get(j, {"lines": []}), {})
+            if why:
+                res.coverage["focused_search_runs"] = tried
+                res.violation("%s on %s/%s: %s (found by the focused search after the correspondence broke: %s)" % (pid, v, wt, why, " ".join(diffs[0][2:])[:200]),
+                              {"kind": "graph", "n": c[0], "edges": c[1], "scale": c[2], "variant": v, "wt": wt, "why": why})
+                return True
+    res.coverage["focused_search_runs"] = tried
+    return False
+
 def run(tier, replay=None, pid=PID, theorems=THEOREMS, oracle=the_oracle, module="Parmcb.Props.C01"):
     res = Result(pid, tier, "proof")
     res.assumptions = ASSUME
@@ -56,7 +88,9 @@ def run(tier, replay=None, pid=PID, theorems=THEOREMS, oracle=the_oracle, module
             return False
         c = shrink_graph(cases[cid], still_bad)
         res.violation("%s on %s/%s: %s" % (pid, v, wt, why), {"kind": "graph", "n": c[0], "edges": c[1], "scale": c[2], "variant": v, "wt": wt, "why": why, "count": len(bad) + len(viols)})
+    elif diffs and not replay and focused_search(res, pid, binary, cases, meta, diffs, oracle, r):
+        pass
     elif diffs or (lean_ok and len(oks) != len(cases)):
-        res.violation("trace validation / correspondence broken (Model/DePina.lean vs the exact algorithms); the %s oracle still holds on all %d runs" % (pid, len(cases)),
+        res.violation("trace validation / correspondence broken (Model/DePina.lean, search loops of mcb_sva_signed vs the exact algorithms): %s; the %s oracle still holds on all %d runs and on %d focused-search runs" % (" ".join(diffs[0][2:])[:160] if diffs else "runs not validated", pid, len(cases), res.coverage.get("focused_search_runs", 0)),
                       {"kind": "correspondence", "first": diffs[:3], "validated": len(oks), "runs": len(cases)}, found=False)
     return res.finish()
